@@ -197,6 +197,8 @@ pub struct CheckArgs {
     pub evidence_path: Option<PathBuf>,
     pub max_runs: Option<usize>,
     pub wall_cap: Duration,
+    /// triage mode: do not stop at the first unknown violation
+    pub keep_going: bool,
 }
 
 struct Driver {
@@ -232,6 +234,7 @@ impl Driver {
         let keep = specs.len() <= 100_000 && !judge;
         let mut kept: Vec<Option<Record>> = if keep { vec![None; specs.len()] } else { vec![] };
         let prop = self.args.prop.clone();
+        let keep_going = self.args.keep_going;
         let stats = {
             let agg = &mut self.agg;
             let findings = &self.findings;
@@ -249,7 +252,7 @@ impl Driver {
                         *known_hits.entry(format!("{} {}", f.class, f.tiling)).or_insert(0) += 1;
                     } else {
                         unknown.push(v);
-                        go_on = false;
+                        go_on = keep_going;
                     }
                 }
                 if !judge && (rec.outcome == "timeout" || rec.outcome == "abort") {
@@ -369,7 +372,7 @@ pub fn check_cmd(args: CheckArgs) -> i32 {
         .collect();
     let census_g: Vec<Census> = census[..corpus.g.len()].to_vec();
 
-    if d.unknown.is_empty() {
+    if d.unknown.is_empty() || d.args.keep_going {
         // 3. K+ and cover counts (coordinator, builder role)
         let (kp, kp_fail) = kplus(&corpus);
         let n_kplus = kp.iter().filter(|&&b| b).count();
@@ -408,6 +411,15 @@ pub fn check_cmd(args: CheckArgs) -> i32 {
     // 5. verdict
     let wall = t0.elapsed().as_secs_f64();
     if let Some(v) = d.unknown.first().cloned() {
+        if d.args.keep_going {
+            let mut by_class: BTreeMap<String, Vec<String>> = BTreeMap::new();
+            for u in &d.unknown {
+                by_class.entry(u.class.clone()).or_default().push(u.group.clone());
+            }
+            for (c, g) in &by_class {
+                println!("triage: class {} in {} groups: {:?}", c, g.len(), g.iter().take(12).collect::<Vec<_>>());
+            }
+        }
         println!("violation: class {} group {}: {}", v.class, v.group, v.detail);
         let path = minimise_and_write(&d, &v);
         println!("VIOLATION property={} replay={}", prop, path.display());
@@ -434,6 +446,7 @@ fn run_census_collect(d: &mut Driver, specs: &[Spec]) -> Vec<Option<Record>> {
     let cfg = d.pool_cfg();
     let mut kept: Vec<Option<Record>> = vec![None; specs.len()];
     let prop = d.args.prop.clone();
+    let keep_going = d.args.keep_going;
     let stats = {
         let agg = &mut d.agg;
         let findings = &d.findings;
